@@ -156,3 +156,26 @@ Theorem C14_cached_interrupt_example :
   (exists p, fst (exec_cached_b positive Pos.eqb exec key1 c1 ask st_none ins0) = OPause p).
 Proof. exact repaired_cached_interrupt. Qed.
 Print Assumptions C14_cached_interrupt_example.
+
+(* ---- nothing computed is lost by a pause: every node that may pause runs alone (nested graphs holding an interrupt included) ---- *)
+Theorem C14_pausing_step_calls_only_the_pausing_node : forall exec g snap pv rd pi p acc calls,
+  (forall n q, In n rd -> snd (run_one exec g snap pv n) = OPause q -> is_interrupt n = true) ->
+  superstep_async exec g snap pv rd pi = (SPause p acc, calls) ->
+  exists i, isolate rd = [i] /\ is_interrupt i = true /\ snd (run_one exec g snap pv i) = OPause p /\
+            calls = match fst (run_one exec g snap pv i) with Some ins => [(n_name i, ins)] | None => [] end.
+Proof. exact pausing_step_calls_only_the_pausing_node. Qed.
+Print Assumptions C14_pausing_step_calls_only_the_pausing_node.
+
+Theorem C14_nested_holder_flag : forall nm inner hin hout,
+  is_interrupt (graphnode_of nm inner hin hout) = existsb is_interrupt (g_nodes (ng_graph inner)).
+Proof. exact graphnode_of_flag. Qed.
+Print Assumptions C14_nested_holder_flag.
+
+Theorem C14_nested_holder_example :
+  is_interrupt (graphnode_of 20%positive hold_inner [] []) = true /\
+  (let r := run_ng 3 Async 20 hold_outer [(1%positive, VInt 5)] None in
+   (res_status r, res_values r, res_log r) = (2%nat, [], [[(20%positive, [(1%positive, VInt 5)])]])) /\
+  (let r := run_ng 3 Async 20 hold_flat [(1%positive, VInt 5)] None in
+   (res_status r, res_values r, res_log r) = (2%nat, [], [[(11%positive, [(1%positive, VInt 5)])]])).
+Proof. exact nested_holder_runs_alone. Qed.
+Print Assumptions C14_nested_holder_example.
